@@ -58,6 +58,8 @@ def framing(rep, prog):
         rep.ob("FRAMING", "DryocBox sealed", {32, 48} <= to and so == {32, 48}, "to_bytes %s from_sealed_bytes %s" % (sorted(to), sorted(so)), loc=fs[0].loc())
         # minimum-length guards of the parsers
         for f, minimum in ((fb[0], 16), (fs[0], 48)):
+            from ..inline import inline as _inl
+            f = _inl(prog, f)       # the length guard may sit in a private helper
             ef = edge_facts(f, cm.view_info)
             for b, kind, e in result_kind_of_ret(f):
                 if kind == "err" or b not in f.reachable(0):
@@ -95,7 +97,9 @@ def fixed_decoders(prog):
 def fixed(rep, prog):
     decs = fixed_decoders(prog)
     rep.floor("fixed-length decoders", len(decs), 7)
+    from ..inline import inline as _inl
     for f, kind in decs:
+        f = _inl(prog, f)       # shared private helpers (`check_length::<E, LENGTH>(n)?`, `read_seq_exact(..)`) folded in
         ef = edge_facts(f, cm.view_info)
         hints = [c for c in f.calls() if c.name == "size_hint"]
         hint_locals = set(c.dest["l"] for c in hints)
@@ -224,12 +228,24 @@ def sized(rep, prog):
                 continue
             f = inline(prog, f)      # a shared sequence-reading helper is analysed in each visitor
             ef = edge_facts(f, cm.view_info)
+            # element stores: `container[idx] = x` through IndexMut, or directly into a slice / array
+            # (MIR bounds check `assert(idx < len)` in front of the store)
+            stores = []
             for c in f.calls():
-                if c.path != "std::ops::IndexMut::index_mut" or len(c.args) != 2:
-                    continue
+                if c.path == "std::ops::IndexMut::index_mut" and len(c.args) == 2:
+                    stores.append((c.bb, cm.view_info(f, list(operand_locals(c.args[0]))[0])[0],
+                                   term_of(f, call_arg_exprs(c)[1], cm.view_info), call_arg_exprs(c)[1], c.loc()))
+            for b_ in sorted(f.reachable(0)):
+                t_ = f.blocks[b_]["t"]
+                if t_["k"] == "assert" and str(t_.get("msg", "")).startswith("BoundsCheck") and not f.blocks[b_]["cleanup"]:
+                    ce = expr_of_operand(f, t_["cond"])
+                    if ce.k == "binop" and ce.a == "Lt":
+                        tn = term_of(f, ce.c, cm.view_info)
+                        arr_ = tn[1] if isinstance(tn, tuple) and tn[0] == "len" else None
+                        stores.append((b_, arr_, term_of(f, ce.b, cm.view_info), ce.b, f.loc(b_)))
+            for sbb, arr, idx, idx_e, sloc in stores:
                 n += 1
-                arr = cm.view_info(f, list(operand_locals(c.args[0]))[0])[0]
-                idx = term_of(f, call_arg_exprs(c)[1], cm.view_info)
+                c = type("S", (), {"bb": sbb, "loc": staticmethod(lambda sloc=sloc: sloc)})
                 # edges on which idx < len(arr) or idx < LENGTH
                 safe_edges = []
                 for edge, fs in ef.items():
@@ -242,7 +258,7 @@ def sized(rep, prog):
                 for r in f.calls():
                     if r.name == "resize" and cm.view_info(f, list(operand_locals(r.args[0]))[0])[0] == arr:
                         t = deep_repr(call_arg_exprs(r)[1])
-                        it_ = deep_repr(call_arg_exprs(c)[1])
+                        it_ = deep_repr(idx_e)
                         if ("%s AddWithOverflow const(1)" % it_) in t or ("(%s Add const(1))" % it_) in t:
                             grow.append(r.bb)
                 reach = f.reachable(0, cut_blocks=grow, cut_edges=safe_edges)
